@@ -208,8 +208,11 @@ def det_spec(rng, name, p, gaussian=False):
                  max_segment_length=int(rng.integers(m, 30))), m
     if name == "MVCAPA":
         m = int(rng.integers(2, 5))
-        return S("MVCAPA", collective_penalty=["dense", "sparse", "combined", "intermediate"][int(rng.integers(4))],
-                 collective_penalty_scale=scale, point_penalty_scale=scale, min_segment_length=m,
+        pens = ["dense", "sparse", "combined", "intermediate", {"fn": "pen_decreasing_betas"},
+                {"fn": "pen_increasing_betas"}, {"fn": "pen_mixed"}]
+        return S("MVCAPA", collective_penalty=pens[int(rng.integers(len(pens)))],
+                 collective_penalty_scale=scale, point_penalty=pens[int(rng.integers(len(pens)))],
+                 point_penalty_scale=float(rng.choice([0.05, 0.2, 0.5, 1.0])), min_segment_length=m,
                  max_segment_length=int(rng.integers(m, 30))), m
     raise KeyError(name)
 
@@ -388,7 +391,7 @@ def make_det_recipe(rng, tier):
     gaussian = kind == "scale" or (kind == "shift" and rng.random() < 0.3)
     if kind == "permute":
         name = ["PELT", "MovingWindow", "SeededBinarySegmentation", "CircularBinarySegmentation", "CAPA",
-                "MVCAPA"][int(rng.integers(6))]
+                "MVCAPA", "MVCAPA", "MVCAPA"][int(rng.integers(8))]
     elif kind == "reverse":
         name = "PELT"
     else:
